@@ -107,7 +107,7 @@ def run(ctx):
         files = bt.generate(lg.to_barectf(cfg), d)
         replay = {'config': {k: (list(v) if isinstance(v, bytes) else v) for k, v in cfg.items()}}
         # ---- nm: no writable object with static storage duration
-        rc, out = bt.cc(['-ansi', '-O1', '-c', 'barectf.c', '-o', 'plain.o'], cwd=d)
+        rc, out = bt.cc(['-ansi', '-O0', '-c', 'barectf.c', '-o', 'plain.o'], cwd=d)   # -O0: an optimiser can delete a static scratch variable
         if rc != 0:
             ctx.corr_broken.append('generated source does not compile: ' + out[-300:])
             continue
@@ -139,7 +139,7 @@ def run(ctx):
             (MAIN % {'dispatch': ' '.join(dispatch), 'nt': nt, 'streams': ', '.join(streams), 'sizes': ', '.join(sizes)})
         with open(os.path.join(d, 'mt.c'), 'w') as f:
             f.write(src)
-        rc, out = bt.cc(['-O1', '-g', '-w', '-fsanitize=thread', 'barectf.c', 'mt.c', '-o', 'mt', '-lpthread'], cwd=d, compiler='clang')
+        rc, out = bt.cc(['-O0', '-g', '-w', '-fsanitize=thread', 'barectf.c', 'mt.c', '-o', 'mt', '-lpthread'], cwd=d, compiler='clang')
         if rc != 0:
             ctx.corr_broken.append('multi-thread driver does not build: ' + out[-400:])
             continue
